@@ -33,6 +33,11 @@ type Case struct {
 	// the main file: what the first evaluation resolved must not leak into the
 	// resolution of the second one.
 	Prelude bool `json:"prelude,omitempty"`
+	// Named: the packages declare a name which differs from their directory
+	// ("q" + directory) and the importers refer to them by that declared name,
+	// without alias, whenever the last elements of a file's import paths are
+	// distinct (otherwise, and always when not Named, every import has an alias).
+	Named bool `json:"named,omitempty"`
 	// Files and Main are informational copies of render() and mainFile() in
 	// stored replay files (paths relative to the GOPATH root); replay
 	// re-renders the tree from Pkgs.
@@ -253,18 +258,33 @@ func (c *Case) render() map[string]string {
 	for i, p := range c.Pkgs {
 		var b strings.Builder
 		name, file := pkgName(p.Dir), "p.go"
+		if c.Named {
+			name = "q" + name
+		}
 		if i == 0 {
 			name, file = "main", "main.go"
 		}
+		// identifier under which each import is referred to
+		ident := make([]string, len(p.Imports))
+		last := map[string]int{}
+		for _, ip := range p.Imports {
+			last[path.Base(ip)]++
+		}
 		fmt.Fprintf(&b, "package %s\n\nimport (\n\t\"fmt\"\n", name)
 		for k, ip := range p.Imports {
+			if base := path.Base(ip); c.Named && last[base] == 1 && base != "." && base != ".." && base != "fmt" {
+				ident[k] = "q" + pkgName(base)
+				fmt.Fprintf(&b, "\t%q\n", ip)
+				continue
+			}
+			ident[k] = fmt.Sprintf("i%d", k)
 			fmt.Fprintf(&b, "\ti%d %q\n", k, ip)
 		}
 		fmt.Fprintf(&b, ")\n\nvar Where = %q\n\nvar reported bool\n\n", p.Dir)
 		fmt.Fprintf(&b, "func init() { fmt.Println(%q) }\n\n", "init "+p.Dir)
 		b.WriteString("func Report() {\n\tif reported {\n\t\treturn\n\t}\n\treported = true\n")
 		for k, ip := range p.Imports {
-			fmt.Fprintf(&b, "\tfmt.Println(\"see\", %q, %q, i%d.Where)\n\ti%d.Report()\n", p.Dir, ip, k, k)
+			fmt.Fprintf(&b, "\tfmt.Println(\"see\", %q, %q, %s.Where)\n\t%s.Report()\n", p.Dir, ip, ident[k], ident[k])
 		}
 		b.WriteString("}\n")
 		if i == 0 {
